@@ -888,6 +888,7 @@ func runFree(f lib.Flags, res *lib.Result, drv *lib.Driver, ms *monitors) {
 	runFreeDrop(f, res, drv, ms)
 	runFreeMerger(f, res, drv, ms)
 	runFreeValue(f, res, drv, ms)
+	runFreeCollection(f, res, drv, ms)
 }
 
 // replayFree re-runs a free-running case from its replay input.
@@ -913,6 +914,18 @@ func replayFree(op string, in map[string]any, ms *monitors) (string, bool) {
 			ms.free.Violate(v[0], "mergeCollectionExcess free-running", m, v[1], v[2])
 		}
 		return "m=" + showChanges(o.handed) + " q=" + showChanges(o.queue) + " err=" + o.err, true
+	case "cfree":
+		var c pcaseJSON
+		if err := reJSON(in, &c); err != nil {
+			lib.Fatal(err)
+		}
+		pc, err := c.decode()
+		if err != nil {
+			lib.Fatal(err)
+		}
+		out := pc.runFreeCollection()
+		pc.monitorFreeCollection(ms, out)
+		return fmt.Sprintf("takes=%d delivered=%s err=%q", len(out.calls), showChanges(out.got), out.err), true
 	case "vfree":
 		var c pcaseJSON
 		if err := reJSON(in, &c); err != nil {
